@@ -38,6 +38,12 @@ func c01Cfg(rng *rand.Rand, producers, batches int, parts int32) plogCfg {
 	if rng.Intn(5) == 0 {
 		cfg.DefaultHealth = true
 	}
+	if rng.Intn(4) == 0 {
+		// first touch: the topic does not exist yet, the producers' first requests auto-create it and race through
+		// the partition log's initialisation
+		cfg.AutoCreate = true
+		cfg.Gated = append(cfg.Gated, "create_topic")
+	}
 	for p := 0; p < producers; p++ {
 		var reqs []plogReq
 		for b := 0; b < batches; b++ {
@@ -64,5 +70,5 @@ func c01CfgSummary(cfg plogCfg) map[string]any {
 		actors = append(actors, l)
 	}
 	return map[string]any{"actors": actors, "fault_budget": cfg.FaultBudget, "buffer_max_bytes": cfg.BufferMaxBytes, "buffer_max_batches": cfg.BufferMaxBatch,
-		"buffer_max_msgs": cfg.BufferMaxMsgs, "index_interval": cfg.IndexInterval, "cache_bytes": cfg.CacheBytes, "default_health": cfg.DefaultHealth, "cancel_budget": cfg.CancelBudget}
+		"buffer_max_msgs": cfg.BufferMaxMsgs, "index_interval": cfg.IndexInterval, "cache_bytes": cfg.CacheBytes, "default_health": cfg.DefaultHealth, "cancel_budget": cfg.CancelBudget, "auto_create": cfg.AutoCreate, "gated": cfg.Gated}
 }
